@@ -270,43 +270,38 @@ Proof.
     exists []. split; [exact A|reflexivity].
 Qed.
 
-Lemma check_dev_entry : forall gov f k s, check_dev (SObj gov f) = true -> In (k, s) f ->
-  match s with
-  | SObj _ _ => check_dev s = true
-  | SLeaf x => match find_tree k gov with
-               | Some (Leaf l) => negb (ldev l && negb (jv_eqb x (ldefault l))) = true
-               | Some (Node _ dev _ _ _ _) => negb dev = true
-               | None => True
-               end
-  end.
+Lemma forallb_In : forall {A} (p : A -> bool) l x, forallb p l = true -> In x l -> p x = true.
+Proof. intros A p l x H Hin. exact (proj1 (forallb_forall p l) H x Hin). Qed.
+
+Lemma find_tree_In : forall k ch c, find_tree k ch = Some c -> In c ch /\ tname c = k.
 Proof.
-  intros gov f k s H Hin. cbn [check_dev] in H. rewrite forallb_forall in H.
-  specialize (H _ Hin). cbn in H. destruct s; [|exact H].
-  destruct (find_tree k gov) as [[l|]|]; auto.
+  induction ch as [|c0 r IH]; cbn; intros c H; [discriminate|].
+  destruct (String.eqb k (tname c0)) eqn:E.
+  - inversion H; subst c. split; [now left|]. symmetry. now apply String.eqb_eq.
+  - destruct (IH c H) as [I1 I2]. split; [now right|exact I2].
 Qed.
 
-(* THE LOCK, for documents without object input: if the developer check passes, every developer leaf of the
-   DECLARED tree, at any depth, holds its declared default *)
-Lemma check_dev_sound : forall reg path ch sub f l v,
-  built reg ch sub f -> check_dev (SObj ch f) = true ->
-  leaf_at ch path = Some l -> ldev l = true -> value_at (SObj ch f) path = Some v ->
+(* THE LOCK (fixed code, /repo c15ad84d): if the developer check passes on the fields `f` of an object whose declared
+   children are `ch`, every developer leaf of the DECLARED tree, at any depth, holds its declared default — whatever
+   the fields were built from (dicts, settings objects of the declared class or of a subclass) *)
+Lemma check_dev_sound : forall path ch g f l v,
+  check_dev ch f = true ->
+  leaf_at ch path = Some l -> ldev l = true -> value_at (SObj g f) path = Some v ->
   jv_eqb v (ldefault l) = true.
 Proof.
-  intros reg path. induction path as [|k rest IH]; intros ch sub f l v [B Hn] C L D V; [discriminate|].
+  induction path as [|k rest IH]; intros ch g f l v C L D V; [discriminate|].
   cbn [leaf_at] in L. cbn [value_at] in V.
   destruct (find_tree k ch) as [c|] eqn:F; [|discriminate].
-  destruct (built_find reg ch sub f k c B F) as (s & Hv & Hg & Hi & Hname).
-  rewrite Hg in V.
-  pose proof (check_dev_entry ch f k s C Hi) as E.
+  destruct (find_tree_In _ _ _ F) as [Hin Hn].
+  unfold check_dev in C. pose proof (forallb_In _ _ _ C Hin) as E. cbn beta in E. rewrite Hn in E.
+  destruct (getf k f) as [s|] eqn:G; [|discriminate].
   destruct c as [l0|n d c o vs ch'].
-  - destruct rest; [|discriminate]. inversion L; subst l0. cbn in Hv.
-    destruct (validate_leaf l sub); [|discriminate]. inversion Hv; subst s. cbn in V. inversion V; subst.
-    rewrite F, D in E. cbn in E. now apply negb_true_iff, negb_false_iff in E.
-  - destruct rest as [|k2 rest2]; [discriminate|].
-    destruct s as [x|gov f'].
-    + cbn in V. discriminate.
-    + destruct (vfield_node_no_inst reg n d c o vs ch' sub gov f' Hn Hv) as [-> [sub' B']].
-      exact (IH ch' sub' f' l v B' E L D V).
+  - destruct rest; [|discriminate]. inversion L; subst l0.
+    destruct s as [x|g' f']; cbn in V; [|discriminate]. inversion V; subst x.
+    cbn [check_dev_t] in E. rewrite D in E. cbn in E. now apply negb_true_iff, negb_false_iff in E.
+  - destruct rest as [|k2 r2]; [discriminate|].
+    destruct s as [x|g' f']; [cbn in V; discriminate|].
+    cbn [check_dev_t] in E. exact (IH ch' g' f' l v E L D V).
 Qed.
 
 Lemma first_fail_devmode : forall vs gov f, In VDevMode vs -> first_fail vs gov f = None -> v_devmode gov f = None.
@@ -317,31 +312,30 @@ Proof.
 Qed.
 
 Lemma dev_lock_l : forall reg n d c o vs ch kvs gov f,
-  no_inst_kvs kvs = true -> In VDevMode vs ->
+  In VDevMode vs ->
   vtop reg (Node n d c o vs ch) kvs = Accept (SObj gov f) ->
   get_leaf "developer_mode" f = Some (JBool false) ->
   forall path l v, leaf_at ch path = Some l -> ldev l = true -> value_at (SObj gov f) path = Some v ->
   jv_eqb v (ldefault l) = true.
 Proof.
-  intros reg n d c o vs ch kvs gov f Hn Hin H Hdm path l v L D V.
+  intros reg n d c o vs ch kvs gov f Hin H Hdm path l v L D V.
   cbn [vtop] in H. unfold vfields in H.
   destruct (all_some (fun c0 => named c0 (vfield reg c0 (norm_kvs kvs))) ch) as [f'|] eqn:A; [|discriminate].
   destruct (first_fail vs ch f') eqn:FF; [discriminate|]. inversion H; subst gov f'.
   pose proof (first_fail_devmode vs ch f Hin FF) as DM. unfold v_devmode in DM. rewrite Hdm in DM.
-  destruct (check_dev (SObj ch f)) eqn:C; [|discriminate].
-  eapply check_dev_sound; eauto. split; [exact A|]. now apply no_inst_norm_kvs.
+  destruct (check_dev ch f) eqn:C; [|discriminate].
+  exact (check_dev_sound path ch ch f l v C L D V).
 Qed.
-
 
 (* ================================================================== the lock is exact *)
 (* only the developer-mode validator answers RDeveloper *)
 Lemma run_vid_developer : forall v gov f, run_vid v gov f = Some RDeveloper ->
-  v = VDevMode /\ check_dev (SObj gov f) = false.
+  v = VDevMode /\ check_dev gov f = false.
 Proof.
   intros v gov f H. destruct v; cbn [run_vid] in H.
   - split; [reflexivity|]. unfold v_devmode in H.
     destruct (get_leaf "developer_mode" f) as [[| [] | | | | |]|]; try discriminate.
-    destruct (check_dev (SObj gov f)); [discriminate|reflexivity].
+    destruct (check_dev gov f); [discriminate|reflexivity].
   - exfalso. unfold v_alpha_final in H.
     repeat match type of H with context [match ?x with _ => _ end] => destruct x end; discriminate.
   - exfalso. unfold v_final_bounds in H.
@@ -363,7 +357,7 @@ Proof.
   - discriminate.
 Qed.
 
-Lemma first_fail_developer : forall vs gov f, first_fail vs gov f = Some RDeveloper -> check_dev (SObj gov f) = false.
+Lemma first_fail_developer : forall vs gov f, first_fail vs gov f = Some RDeveloper -> check_dev gov f = false.
 Proof.
   induction vs as [|v r IH]; intros gov f H; cbn in H; [discriminate|].
   destruct (run_vid v gov f) as [x|] eqn:R; [|now apply IH].
@@ -413,8 +407,6 @@ Proof.
   - destruct (IH H) as (y & I1 & I2). exists y. split; [now right|exact I2].
 Qed.
 
-Lemma forallb_In : forall {A} (p : A -> bool) l x, forallb p l = true -> In x l -> p x = true.
-Proof. intros A p l x H Hin. exact (proj1 (forallb_forall p l) H x Hin). Qed.
 
 Lemma vfield_node_not_leaf : forall reg n d c vs ch sub x,
   vfield reg (Node n d c false vs ch) sub = Some (SLeaf x) -> False.
@@ -436,38 +428,35 @@ Qed.
    some developer leaf of the declared tree, at some depth, does not hold its default *)
 Definition exact_at (reg : registry) (t : stree) : Prop :=
   forall sub gov f, no_inst_kvs sub = true -> wf_tree t = true -> vfield reg t sub = Some (SObj gov f) ->
-    check_dev (SObj gov f) = false ->
-    exists path l v, leaf_at gov path = Some l /\ ldev l = true /\ value_at (SObj gov f) path = Some v /\
+    check_dev_t t (SObj gov f) = false ->
+    exists path l v, leaf_at (children_of t) path = Some l /\ ldev l = true /\ value_at (SObj gov f) path = Some v /\
                      jv_eqb v (ldefault l) = false.
 
-Lemma check_dev_false_children : forall reg ch sub f,
+Lemma check_dev_false_children : forall reg ch sub g f,
   Forall (exact_at reg) ch -> nodupb (map tname ch) = true -> forallb wf_tree ch = true ->
-  built reg ch sub f -> check_dev (SObj ch f) = false ->
-  exists path l v, leaf_at ch path = Some l /\ ldev l = true /\ value_at (SObj ch f) path = Some v /\
+  built reg ch sub f -> check_dev ch f = false ->
+  exists path l v, leaf_at ch path = Some l /\ ldev l = true /\ value_at (SObj g f) path = Some v /\
                    jv_eqb v (ldefault l) = false.
 Proof.
-  intros reg ch sub f IH ND WF [B Hn] C.
-  cbn [check_dev] in C. destruct (forallb_false_ex _ _ C) as ([k s1] & Hin & Hbad).
-  destruct (built_in reg ch sub f k s1 B Hin) as (c1 & Hc1 & Hk & Hv).
-  pose proof (find_tree_nodup ch c1 ND Hc1) as F. rewrite Hk in F.
-  destruct (built_find reg ch sub f k c1 B F) as (s & Hv' & Hg & _ & _).
-  rewrite Hv in Hv'. inversion Hv'; subst s. clear Hv'.
+  intros reg ch sub g f IH ND WF [B Hn] C.
+  unfold check_dev in C. destruct (forallb_false_ex _ _ C) as (c1 & Hc1 & Hbad).
+  pose proof (find_tree_nodup ch c1 ND Hc1) as F.
+  destruct (built_find reg ch sub f (tname c1) c1 B F) as (s & Hv & Hg & _ & _).
+  rewrite Hg in Hbad.
   pose proof (forallb_In _ _ _ WF Hc1) as WF1.
-  destruct s1 as [x|gov1 f1].
-  - (* a leaf value *)
-    rewrite F in Hbad. destruct c1 as [l|n d c o vs ch1].
-    + apply negb_false_iff, andb_true_iff in Hbad as [D1 D2]. apply negb_true_iff in D2.
-      exists [k], l, x. cbn [leaf_at value_at]. rewrite F, Hg. repeat split; auto.
-    + (* a node whose value is a leaf: only an optional node given None — excluded by wf_tree *)
-      cbn in WF1. apply andb_prop in WF1 as [WF1 _]. apply andb_prop in WF1 as [WF1 _]. apply negb_true_iff in WF1. subst o.
-      exfalso. exact (vfield_node_not_leaf reg n d c vs ch1 sub x Hv).
+  destruct c1 as [l|n d c o vs ch1].
+  - (* a leaf *)
+    cbn in Hv. destruct (validate_leaf l sub) as [x|]; [|discriminate]. inversion Hv; subst s.
+    cbn [check_dev_t] in Hbad. apply negb_false_iff, andb_true_iff in Hbad as [D1 D2]. apply negb_true_iff in D2.
+    exists [lname l], l, x. cbn [leaf_at value_at]. cbn [tname] in F, Hg. rewrite F, Hg. repeat split; auto.
   - (* a nested object *)
-    destruct c1 as [l|n d c o vs ch1].
-    + cbn in Hv. destruct (validate_leaf l sub); discriminate.
+    cbn [tname] in F, Hg.
+    destruct s as [x|gov1 f1].
+    + cbn in WF1. apply andb_prop in WF1 as [WF1 _]. apply andb_prop in WF1 as [WF1 _]. apply negb_true_iff in WF1. subst o.
+      exfalso. exact (vfield_node_not_leaf reg n d c vs ch1 sub x Hv).
     + rewrite Forall_forall in IH. specialize (IH _ Hc1 sub gov1 f1 Hn WF1 Hv Hbad).
-      destruct IH as (path & l & v & L & D & V & E).
-      destruct (vfield_node_no_inst reg n d c o vs ch1 sub gov1 f1 Hn Hv) as [-> _].
-      exists (k :: path), l, v. cbn [leaf_at value_at]. rewrite F, Hg.
+      destruct IH as (path & l & v & L & D & V & E). cbn [children_of] in L.
+      exists (n :: path), l, v. cbn [leaf_at value_at]. rewrite F, Hg.
       destruct path as [|k2 rest]; [cbn in L; discriminate|]. repeat split; auto.
 Qed.
 
@@ -477,7 +466,8 @@ Proof.
   - cbn in H. destruct (validate_leaf l sub); discriminate.
   - destruct (vfield_node_no_inst reg n d c o vs ch sub gov f Hn H) as [-> [sub' B]].
     cbn in WF. apply andb_prop in WF as [WF W2]. apply andb_prop in WF as [_ W1].
-    exact (check_dev_false_children reg ch sub' f IH W1 W2 B C).
+    cbn [check_dev_t] in C. cbn [children_of].
+    exact (check_dev_false_children reg ch sub' ch f IH W1 W2 B C).
 Qed.
 
 Lemma lock_exact_l : forall reg n d c o vs ch kvs,
@@ -492,7 +482,7 @@ Proof.
   pose proof (first_fail_developer vs ch f FF) as C.
   unfold wf_children in WF. apply andb_prop in WF as [W1 W2].
   assert (IH : Forall (exact_at reg) ch) by (apply Forall_forall; intros; apply exact_all).
-  destruct (check_dev_false_children reg ch (norm_kvs kvs) f IH W1 W2 (conj A (no_inst_norm_kvs kvs Hn)) C)
+  destruct (check_dev_false_children reg ch (norm_kvs kvs) ch f IH W1 W2 (conj A (no_inst_norm_kvs kvs Hn)) C)
     as (path & l & v & L & D & V & E).
   exists f, path, l, v. repeat split; auto.
 Qed.
